@@ -10,6 +10,8 @@ import NutsProofs.Lemmas.C08Inv
 import NutsProofs.Lemmas.C08Repair
 import NutsProofs.Lemmas.C08Order
 import NutsProofs.Lemmas.C08Codec
+import NutsProofs.Lemmas.C08Delete
+import NutsProofs.Lemmas.C08Drop
 
 namespace Nuts.C08.Props
 open Nuts.C08
@@ -799,6 +801,160 @@ example : Sorted ([(256, (1 : BitVec 256)), (768, 2)]) ∧ (∀ x ∈ [(256, (1 
   · simp [Sorted]
   · intro x hx; simp at hx; rcases hx with h | h <;> subst h <;> decide
 
+/-- **Clock-shelf keys sort like the clocks they encode** (`stoabs.Uint32Key`, big-endian): bbolt's cursor
+    (`bytes.Compare`) visits the clock shelf in ascending clock order — what `visitBetweenLC`'s `Range` relies on
+    for the clock-ordered listing. -/
+theorem clock_keys_order (a b : Nat) (h : a < b) (hb : b < 2 ^ 32) : lexLt (uint32Key a) (uint32Key b) = true :=
+  beBytes_lt 4 a b h (by rw [pow256_4]; exact hb)
+
+/-- the raw clock shelf of a disk whose abstract index is sorted by clock is sorted by key bytes; `indexClockValue`
+    keeps the abstract index sorted -/
+theorem clock_shelf_cursor_order (d : Disk NB) (tx : Tx) (hs : Sorted d.clocks) (hb : ∀ x ∈ d.clocks, x.1 < 2 ^ 32) :
+    (encodeClocks d.clocks).Pairwise (fun a b => lexLt a.1 b.1 = true) ∧ Sorted (d.indexClock tx).clocks := by
+  refine ⟨encodeClocks_sorted d.clocks hs hb, ?_⟩
+  unfold Disk.indexClock
+  simp only
+  split
+  · exact hs
+  · exact putSorted_sorted _ _ _ hs
+
+/-- the tree shelves' little-endian keys do NOT sort like clocks (witness: key(256) < key(1)) — `treeStore.read`
+    therefore collects into a map and `Load` sorts the keys itself (`readShelf` = sorted insertion) -/
+theorem leaf_keys_not_ordered : lexLt (clockToKey 256) (clockToKey 1) = true ∧ lexLt (uint32Key 1) (uint32Key 256) = true := by
+  decide
+
+/-- **Metadata getters decode what the setters wrote**: on the bytes `dag.add` put under lc_high / tx_num / head_ref
+    the getters return the abstract disk's values (an absent head reads as the empty hash). -/
+theorem metadata_getters_refine (lc cnt : Nat) (h : Option Ref) (hlc : lc < 2 ^ 32) (hcnt : cnt < 2 ^ 64) :
+    getHighestClockValue (.value (uint32Key lc)) = .ok lc ∧
+    getNumberOfTransactions (.value (countBytes cnt)) = .ok cnt ∧
+    getHead (headBytes h) = .ok (h.getD 0) := metadata_getters lc cnt h hlc hcnt
+
+/-- the getters' fallbacks: an absent key and ANY other storage error both read as 0 for the clock and the count
+    (a failing read is indistinguishable from an empty DAG there), while `getHead` returns the error -/
+theorem metadata_getters_fallback :
+    getHighestClockValue .notFound = .ok 0 ∧ getHighestClockValue .failed = .ok 0 ∧
+    getNumberOfTransactions .notFound = .ok 0 ∧ getNumberOfTransactions .failed = .ok 0 ∧
+    getHead .notFound = .ok 0 ∧ getHead .failed = .err "storage" := by decide
+
+example : getHighestClockValue (.value [1, 2]) = .panic "index out of range" := by decide
+example : fromSlice [1, 2] = refOfBytes ([1, 2] ++ List.replicate 30 0) := by decide
+
 end codec
+
+/-! ### `tree.Delete` (was correspondence-only) -/
+
+/-- `Delete` (any reference, any clock) keeps the invariant, and the sum of the leaves on any set `q` of pages loses the
+    reference exactly when the clock's page is in `q` -/
+theorem tree_inv_delete {o : Ops R G} (L : Lawful o) (D : DelLawful o) (t : Tree G) (i : TInv o t) (r : R) (clock : Nat) :
+    TInv o (t.delete o r clock) ∧ (t.delete o r clock).leafSize = t.leafSize ∧
+    ∀ q : Nat → Bool, fsum o t.leafSize q (t.delete o r clock).root.leaves =
+      if q (clock / t.leafSize) then o.del (fsum o t.leafSize q t.root.leaves) r
+      else fsum o t.leafSize q t.root.leaves := delete_spec L D t i r clock
+
+/-- **Delete exactly undoes Insert**: after `Insert(ref, clock); Delete(ref, clock)` on any tree satisfying the
+    invariant, `Root()` and `ZeroTo(c)` for EVERY `c` are what they were (even when the insert made the tree grow). -/
+theorem delete_undoes_insert {o : Ops R G} (L : Lawful o) (D : DelLawful o) (t : Tree G) (i : TInv o t) (r : R) (clock : Nat) :
+    let t' := (t.insert o r clock).delete o r clock
+    TInv o t' ∧ t'.rootData o = t.rootData o ∧ ∀ c, (t'.zeroTo o c).1 = (t.zeroTo o c).1 := by
+  intro t'
+  have hi := tree_inv_insert L t i r clock
+  have hd := delete_spec L D (t.insert o r clock) hi.1 r clock
+  have hls : t'.leafSize = t.leafSize := by rw [hd.2.1, hi.2.1]
+  have hq : ∀ q : Nat → Bool, fsum o t.leafSize q t'.root.leaves = fsum o t.leafSize q t.root.leaves := by
+    intro q
+    have h1 := hd.2.2 q
+    rw [hi.2.1] at h1
+    rw [h1, hi.2.2 q]
+    split
+    · exact D.del_ins _ _
+    · rfl
+  have o1 := observables_of_inv L t i
+  have o2 := observables_of_inv L t' hd.1
+  refine ⟨hd.1, ?_, fun c => ?_⟩
+  · rw [o2.1, o1.1, hls]; exact hq _
+  · rw [o2.2 c, o1.2 c, hls]; exact hq _
+
+/-- both `Data` implementations satisfy the Delete laws (XOR: self-inverse; IBLT: bucket-wise, for arbitrary bucket
+    indices incl. repeated ones) -/
+theorem xor_iblt_delete_lawful (n : Nat) : DelLawful xorOps ∧ DelLawful (ibltOps n) := ⟨xor_del_lawful, iblt_del_lawful n⟩
+
+/-- non-vacuity: a grown XOR tree, insert at a clock beyond the tree, delete again -/
+example : let t := [((1 : BitVec 256), 0), (2, 5)].foldl (fun t rc => t.insert xorOps rc.1 rc.2) (Tree.new xorOps 2)
+    let t' := (t.insert xorOps 9 17).delete xorOps 9 17
+    t.treeSize = 8 ∧ t'.treeSize = 32 ∧ t'.rootData xorOps = 3 ∧ (t'.zeroTo xorOps 1).1 = 1 := by decide
+
+/-! ### `tree.DropLeaves` (was not modelled) -/
+
+/-- **DropLeaves keeps the invariant and merges pages pairwise.** On a tree whose root is a leaf it does nothing; on any
+    other tree satisfying the invariant it succeeds (no nil dereference), the leaf size doubles, tree size and `Root()`
+    stay, the old leaves are appended to the orphans, and the sum of the new leaves on any set `q` of (doubled) pages is
+    the sum of the old leaves on the pages `p` with `q (p / 2)`. -/
+theorem drop_leaves_spec {o : Ops R G} (L : Lawful o) (t : Tree G) (i : TInv o t) :
+    (t.treeSize = t.leafSize → t.dropLeaves = .ok t) ∧
+    (t.treeSize ≠ t.leafSize →
+      ∃ t', t.dropLeaves = .ok t' ∧ TInv o t' ∧ t'.leafSize = 2 * t.leafSize ∧ t'.treeSize = t.treeSize ∧
+        t'.rootData o = t.rootData o ∧
+        (∀ q : Nat → Bool, fsum o (2 * t.leafSize) q t'.root.leaves = fsum o t.leafSize (fun p => q (p / 2)) t.root.leaves) ∧
+        (∃ orph, t'.orphaned = t.orphaned ++ orph)) := dropLeaves_tree L t i
+
+/-- after DropLeaves, `ZeroTo(c)` for EVERY `c` is the sum of the old pages up to the end of the doubled page of `c` -/
+theorem drop_leaves_observables {o : Ops R G} (L : Lawful o) (t : Tree G) (i : TInv o t) (hne : t.treeSize ≠ t.leafSize) :
+    ∃ t', t.dropLeaves = .ok t' ∧ t'.rootData o = t.rootData o ∧
+      ∀ c, (t'.zeroTo o c).1 = fsum o t.leafSize (fun p => decide (p / 2 ≤ c / (2 * t.leafSize))) t.root.leaves := by
+  obtain ⟨t', e, i', hls, _, hr, hf, _⟩ := (dropLeaves_tree L t i).2 hne
+  refine ⟨t', e, hr, fun c => ?_⟩
+  rw [(observables_of_inv L t' i').2 c, hls]
+  exact hf _
+
+/-- non-vacuity: three pages of leaf size 2 become two pages of leaf size 4; clock 3 now reads pages 0-1 -/
+def exDropT : Tree (BitVec 256) :=
+  [((1 : BitVec 256), 0), (2, 3), (4, 5)].foldl (fun t rc => t.insert xorOps rc.1 rc.2) (Tree.new xorOps 2)
+def exDropT' : Tree (BitVec 256) := match exDropT.dropLeaves with | .ok t' => t' | _ => Tree.new xorOps 1
+example : exDropT.dropLeaves = .ok exDropT' ∧ exDropT.treeSize = 8 ∧ (exDropT.zeroTo xorOps 1).1 = 1 ∧
+    exDropT'.treeSize = 8 ∧ exDropT'.leafSize = 4 ∧ exDropT'.rootData xorOps = 7 ∧ (exDropT'.zeroTo xorOps 1).1 = 3 ∧
+    exDropT'.root.leaves = [(2, 3), (6, 4)] ∧ exDropT'.orphaned = [1, 3, 5] := by decide
+
+/-- the nil dereference of `dropLeavesR` needs an unbalanced tree (never produced by New/Insert/Load/Replace) -/
+example : (Node.branch 4 8 (0 : BitVec 256) (.branch 2 4 0 (.leaf 1 2 0) (.leaf 3 4 0)) (.leaf 6 8 0)).dropLeaves
+    = .panic "nil dereference: n.left.isLeaf()" := by decide
+
+/-- generated from the source (deepening round, second batch): NewIblt's clamp, the conditions and assignments of
+    DropLeaves / dropLeavesR, Delete-before-Put in writeWithoutLock, the getters' error classification -/
+theorem fact_tree_api :
+    Facts.C08.newIbltConds = ["numBuckets < int(ibltK)"] ∧
+    Facts.C08.dropLeavesConds = ["t.root == nil || t.root.isLeaf()", "t.orphanedLeaves == nil"] ∧
+    Facts.C08.dropLeavesRConds = ["n == nil", "n.left.isLeaf()", "n.right != nil"] ∧
+    Facts.C08.dropLeavesAssigns = ["t.dirtyLeaves=update.dirty", "t.orphanedLeaves=update.orphaned",
+      "t.orphanedLeaves[k]=struct{}{}", "t.leafSize*=2"] ∧
+    Facts.C08.writeWithoutLockWriterCalls = ["writer.Delete", "writer.Put"] ∧
+    Facts.C08.metaGetterConds = ["errors.Is(err, stoabs.ErrKeyNotFound)", "err != nil", "errors.Is(err, stoabs.ErrKeyNotFound)",
+      "err != nil", "errors.Is(err, stoabs.ErrKeyNotFound)", "err != nil"] := by decide
+
+/-- `NewIblt` never yields fewer than `k` buckets, is the identity from `k` on, and `Iblt.New()` (= `NewIblt(numBuckets())`)
+    reproduces the bucket count of its receiver — so every node the tree creates from the prototype has the
+    prototype's size and `Add` inside the tree never hits `validate`'s mismatch -/
+theorem new_iblt_buckets (k n : Nat) :
+    k ≤ Codec.newIbltBuckets k n ∧ n ≤ Codec.newIbltBuckets k n ∧ (k ≤ n → Codec.newIbltBuckets k n = n) ∧
+    Codec.newIbltBuckets k (Codec.newIbltBuckets k n) = Codec.newIbltBuckets k n := by
+  unfold Codec.newIbltBuckets
+  refine ⟨?_, ?_, ?_, ?_⟩
+  · split <;> omega
+  · split <;> omega
+  · intro h; rw [if_neg (by omega)]
+  · by_cases h : n < k
+    · simp [h]
+    · simp [h]
+
+example : Codec.newIbltBuckets Facts.C08.ibltK 3 = 6 ∧ Codec.newIbltBuckets Facts.C08.ibltK Facts.C08.ibltNumBuckets = 1024 := by decide
+
+/-- `writeWithoutLock` with orphans (`persistFull`) coincides with the modelled `persist` whenever nothing is orphaned —
+    which is every state the node reaches (DropLeaves has no caller) -/
+theorem persist_full_eq_persist {G : Type} (t : Tree G) (shelf : List (Nat × G)) (h : t.orphaned = []) :
+    persistFull t shelf = persist t shelf := by
+  unfold persistFull persist
+  have hf : shelf.filter (fun kv => !t.orphaned.contains kv.1) = shelf := by
+    rw [h]; exact List.filter_eq_self.mpr (fun _ _ => by simp)
+  simp only [hf]
 
 end Nuts.C08.Props
